@@ -83,11 +83,15 @@ M_C03(pre, a, obs, post) ==
   IF ~(IsReq(a) /\ a.a = "Pub") THEN M_C03_Special(a, obs) \cup M_C03_Nested(a, obs) ELSE
   LET t == a.t  s == a.s  u == Actor(a)
       \* attached, and the author is currently subscribed with W in both the requested and the granted mode
+      \* a topic is suspended while the account of its owner (group) or of one of its two participants (p2p) is suspended
+      \* (obs.suspended: accounts whose STORED state was 'suspended' before the step; empty in the model, which has no such request)
+      suspended == \E x \in obs.suspended : (t \in GrpTopics /\ pre.topics[t].owner = x) \/ (t \in P2PTopics /\ x \in P2PUsers[t])
       writable == /\ t \in M(pre.sess[s].subs)
                   /\ Live(pre, t)
                   /\ pre.subs[t][u].st = "live"
-                  /\ "W" \in Eff(pre.subs[t][u]) IN
-  If(Accepted(obs) <=> writable, "AcceptedIffAttachedWriter")
+                  /\ "W" \in Eff(pre.subs[t][u])
+                  /\ ~suspended IN
+  If(Accepted(obs) <=> writable, IF suspended THEN "SuspendedTopicRefusesPublish" ELSE "AcceptedIffAttachedWriter")
   \cup If(~Accepted(obs) => obs.code >= 400, "RejectedPublishGetsErrorReply")
   \cup If(~Accepted(obs) => StoreOf(post) = StoreOf(pre) /\ post.cache = pre.cache, "RejectedPublishChangesNothing")
   \cup If(~Accepted(obs) => obs.data = {} /\ obs.push = {}, "RejectedPublishReachesNobody")
